@@ -1054,6 +1054,21 @@ def waiters_hoard(cfg, layers, reqs):
     return len(set(keys)) < len(keys) and any(l in HEDGES_THAT_REPOLL or l in ("retry", "reconnect") for l in below)
 
 
+def bulkhead_waiter_hoards(cfg, layers, reqs):
+    """A request waiting for a FULL bulkhead (its protective condition: triggered) waits inside `call`, i.e. after its instance reserved
+    capacity of the wrapped service in `poll_ready` (Tower allows a ready service to keep what it reserved). When the request that
+    holds the bulkhead's permit needs capacity again — a further attempt made by a hedge / retry / reconnect layer below the bulkhead —
+    and the wrapped service has few permits (ConcurrencyLimit / Buffer), each waits for what the other holds: a capacity deadlock of the
+    composition in which every call honours the readiness contract (found by thorough seed 3: bulkhead(1) over hedge over
+    ConcurrencyLimit(1)). Not a C20 clause; the wedge clause is not decided for such cases."""
+    if cfg.get("inner", "strict") == "strict" or len(reqs) < 2:
+        return False
+    for i, l in enumerate(layers):
+        if BASE.get(l, l) == "bulkhead" and any(BASE.get(x, x) in ("hedge", "retry", "reconnect") for x in layers[i + 1:]):
+            return True
+    return False
+
+
 def layer_detaches(l):
     """does the layer run the wrapped call in a task of its own (so that it may outlive the caller's future / answer)?"""
     return BASE.get(l) in ("hedge", "executor") or l == "timelimiter_nocancel"
@@ -1286,6 +1301,7 @@ def mon_readiness_contract(case, lines, meta):
         if hours < nerr + 1:
             rounds = 0
     if (rounds >= 3 and not hoarding_possible(kvs(case["header"]), layers) and not waiters_hoard(kvs(case["header"]), layers, reqs)
+            and not bulkhead_waiter_hoards(kvs(case["header"]), layers, reqs)
             and not cache_hit_hoards(kvs(case["header"]), layers, reqs, lines, meta)):
         for c, rq in reqs.items():
             if not rq["dropped"] and c not in res:
